@@ -101,6 +101,25 @@ Theorem C08_reselect_spec : forall matches ord t ops s, perm_oracle ord ->
 Proof. exact reselect_spec. Qed.
 Print Assumptions C08_reselect_spec.
 
+(* Tables with their own regex_flags (constructor argument): the oracle takes
+   the table's case folding, matches2 true = IGNORECASE (default), matches2
+   false = case-sensitive.  C08_refines for both values ... *)
+Theorem C08_refines_flags : forall (matches2 : bool -> N -> N -> bool) ord, perm_oracle ord ->
+  forall fold_case t s,
+  names_plainb (matches2 fold_case) (s_idx t) = true -> sel_okb t s = true ->
+  indices (matches2 fold_case) ord t (QOne s) = sel_spec (matches2 fold_case) t s.
+Proof. exact refines_flags. Qed.
+Print Assumptions C08_refines_flags.
+
+(* ... and with several tables alive in one process and selections on them in
+   any interleaving, step i on table k shows the views of table k under its own
+   flag: nothing done with the same pattern text on another table matters *)
+Theorem C08_tables_independent : forall (matches2 : bool -> N -> N -> bool) ord tabs steps i k q ft,
+  nth_error steps i = Some (k, q) -> nth_error tabs k = Some ft ->
+  nth_error (mrun matches2 ord tabs steps) i = Some (fviews matches2 ord ft q).
+Proof. exact tables_independent. Qed.
+Print Assumptions C08_tables_independent.
+
 (* non-vacuity: names a=1, ab=2, c=3; pattern 10 = 'a.*' (matches a, ab), 11 = 'A|c';
    table [a; ab; a; c; ab] with x = [1;2;3;0;2]; reversing set order is a
    permutation oracle; hypotheses hold; the model computes what the spec says *)
